@@ -14,9 +14,10 @@ def isAlnum (c : Char) : Bool := c.isAlphanum
 
 def isNameChar (c : Char) : Bool := isAlnum c || c == '-' || c == '_' || c == '.'
 
-/-- the property's handler-id alphabet `[A-Za-z0-9_./<>-]` -/
+/-- the property's handler-id alphabet `[A-Za-z0-9_./<>-]`, plus `:` — the one further character
+    kopf's own ids contain (`lambda:<path>:<line>`, `get_callable_id`) -/
 def isIdChar (c : Char) : Bool :=
-  isAlnum c || c == '_' || c == '.' || c == '/' || c == '<' || c == '>' || c == '-'
+  isAlnum c || c == '_' || c == '.' || c == '/' || c == '<' || c == '>' || c == '-' || c == ':'
 
 def headAlnum : Str → Bool
   | [] => false
